@@ -924,4 +924,8 @@ def run(ctx, replay=None):
     ctx.count("ArgumentsUnchanged", sum(1 for e in events if e["ev"] in ("Call", "Mutation")))
     ctx.sample({"direction": "F", "history": [e for e in events if e["ev"] in ("Construct", "Call")][:4]})
     ctx.sample({"direction": "B", "event": [e for e in events if e["ev"] == "Style"][0]})
+    # the deep-linear solver (DeepLinear.tla): caller's arrays, configuration and reuse of one object along TLC's behaviours
+    os.environ["VERIF_LAYOUTS"] = "0"
+    from .. import deeplinear
+    deeplinear.stage(ctx, quick=not thorough)
     return "model_checking"
